@@ -52,6 +52,8 @@ INVARIANTS = ['TypeOK', 'GradIsDerivative', 'SurfGradProjects', 'SurfGradBoundar
               'ProductGradient', 'BoundaryFieldTangential', 'BoundarySurfGrad']
 
 RTOL = 2e-10
+# several TLC processes run side by side: do not let every JVM start one GC / JIT thread per core
+JAVA_OPTS = '-XX:ParallelGCThreads=2 -XX:CICompilerCount=2'
 
 
 # ---------------------------------------------------------------------------
@@ -223,11 +225,11 @@ def _replay(name, level, stage, snaps, out, fail):
         raise Fail('mesh-binding', 'the elements of the real topology ({}) differ from the elements of the model mesh ({})'.format(len(evs), len(model_elems)),
                    dict(only_code=sorted(map(sorted, set(evs) - model_elems))[:3], only_model=sorted(map(sorted, model_elems - set(evs)))[:3]))
 
-    # ---- independence of refinement: on a refined mesh the same geometry is also represented in a basis of the UNREFINED
-    # topology (a discrete geometry that lives on the coarse mesh, evaluated / integrated on the fine one)
+    # ---- independence of refinement: on a refined mesh the same geometry is also represented in a basis of the topology of
+    # the previous level (a discrete geometry that lives on the coarser mesh, evaluated / integrated on the finer one)
     Gh = None
     if level > 0 and n == m and name not in PRODUCTS and stage != 'bfield':
-        topo0 = build_mesh(name, 0)[0]
+        topo0 = build_mesh(name, level - 1)[0]
         basis0 = topo0.basis('std', degree=2)
         with _quiet():
             Gh = numpy.stack([basis0 @ topo0.project(Gi, onto=basis0, geometry=x0, degree=4) for Gi in G])
@@ -593,7 +595,8 @@ def _int_rows(arrs):
     raise RuntimeError('edge table: numbers are not dyadic')
 
 
-def export_edge_table(meshes, maxlevel, refine_on):
+def export_edge_table(meshes, levels):
+    """levels: name -> highest refinement level of that mesh in the model"""
     import numpy
     from nutils import element, evaluable, transform
     rows = []
@@ -623,7 +626,7 @@ def export_edge_table(meshes, maxlevel, refine_on):
     for name in sorted(meshes):
         if name in PRODUCTS:
             continue
-        for level in range((maxlevel if name in refine_on else 0) + 1):
+        for level in range(levels.get(name, 0) + 1):
             topo, x0, _ = build_mesh(name, level)
             n = topo.ndims
             doms = [('boundary', topo.boundary.transforms, topo.boundary.references)]
@@ -651,7 +654,7 @@ def make_cfg(c, mutant='none', invariants=INVARIANTS, emit=True, table=True):
     def iset(xs):
         return '{' + ', '.join(str(x) for x in sorted(xs)) + '}'
     lines = ['SPECIFICATION Spec', 'CONSTANTS',
-             '  MeshNames = ' + sset(c['MeshNames']), '  RefineOn = ' + sset(c['RefineOn']), '  MaxLevel = {}'.format(c['MaxLevel']),
+             '  MeshNames = ' + sset(c['MeshNames']), '  RefineOn = ' + sset(c['RefineOn']), '  MaxLevel = {}'.format(c['MaxLevel']), '  Refine2On = ' + sset(c['Refine2On']),
              '  GeomIds = ' + iset(c['GeomIds']), '  FieldIds = ' + iset(c['FieldIds']),
              '  Lattice = {}'.format(c['Lattice']), '  Lattice3 = {}'.format(c['Lattice3']),
              '  IntegrateOn = ' + sset(c['IntegrateOn']), '  BFieldOn = ' + sset(c['BFieldOn']), '  RefineOnB = ' + sset(c['RefineOnB']),
@@ -676,28 +679,28 @@ def choose_constants(tier, rng):
         # a product of three one-dimensional spaces or of a two- and a one-dimensional space, with a separable map for the
         # per-space operators
         prod3d, sepgeom = rng.choice([('prod3', 22), ('prodm', 23)])
-        return dict(MeshNames=['line', 'rect', 'tri', 'prod', 'box', 'tet', prod3d], RefineOn=['line', 'tri'], MaxLevel=1, GeomIds=sorted(core | extra),
+        return dict(MeshNames=['line', 'rect', 'tri', 'prod', 'box', 'tet', prod3d], RefineOn=['line', 'tri'], MaxLevel=1, Refine2On=['line'], GeomIds=sorted(core | extra),
                     FieldIds=sorted(fields), Lattice=2, Lattice3=1, IntegrateOn=['line', 'rect', 'tri', 'tet'],
-                    BFieldOn=['rect', 'tri', 'box', 'tet'], RefineOnB=['tet'], ProdGeomIds=[sepgeom])
-    return dict(MeshNames=['line', 'rect', 'tri', 'prod', 'box', 'tet', 'prod3', 'prodm'], RefineOn=['line', 'rect', 'tri', 'tet', 'box', 'prod'], MaxLevel=1,
+                    BFieldOn=['rect', 'tri', 'box', 'tet'], RefineOnB=['tet'], ProdGeomIds=[rng.choice([12, 14]), sepgeom])
+    return dict(MeshNames=['line', 'rect', 'tri', 'prod', 'box', 'tet', 'prod3', 'prodm'], RefineOn=['line', 'rect', 'tri', 'tet', 'box', 'prod'], MaxLevel=1, Refine2On=['line', 'rect'],
                 GeomIds=list(range(1, NGEOMS + 1)), FieldIds=list(range(1, NFIELDS + 1)), Lattice=2, Lattice3=2, IntegrateOn=['line', 'rect', 'tri', 'box', 'tet'],
-                BFieldOn=['rect', 'tri', 'box', 'tet'], RefineOnB=[], ProdGeomIds=[])
+                BFieldOn=['rect', 'tri', 'box', 'tet'], RefineOnB=[], ProdGeomIds=list(range(11, 16)) + [22, 23])
 
 
 def _groups(meshes, quick):
     """the state graphs of different base meshes are disjoint: they are explored by concurrent TLC runs"""
-    parts = [['line', 'rect', 'tri', 'prod'], ['box', 'tet', 'prod3', 'prodm']] if quick else [['line', 'rect', 'prod'], ['tri', 'prodm'], ['box', 'prod3'], ['tet']]
+    parts = [['line', 'rect', 'prod'], ['tri'], ['box', 'tet', 'prod3', 'prodm']] if quick else [['line', 'rect', 'prod'], ['tri', 'prodm'], ['box', 'prod3'], ['tet']]
     return [g for g in ([m for m in part if m in meshes] for part in parts) if g]
 
 
 # spec mutants: (name, constants, the invariants that must catch it)
 def _mutants(consts, quick):
-    tetb = dict(consts, MeshNames=['tet'], RefineOn=[], RefineOnB=['tet'], GeomIds=[12], FieldIds=[13], IntegrateOn=[], BFieldOn=['tet'], ProdGeomIds=[])
-    prod = dict(consts, MeshNames=['prod', 'prod3'], RefineOn=[], RefineOnB=[], GeomIds=[6, 12], FieldIds=[7, 13], IntegrateOn=[], BFieldOn=[], ProdGeomIds=[])
+    tetb = dict(consts, MeshNames=['tet'], RefineOn=[], Refine2On=[], RefineOnB=['tet'], GeomIds=[12], FieldIds=[13], IntegrateOn=[], BFieldOn=['tet'], ProdGeomIds=[])
+    prod = dict(consts, MeshNames=['prod', 'prod3'], RefineOn=[], Refine2On=[], RefineOnB=[], GeomIds=[6], FieldIds=[7, 13], IntegrateOn=[], BFieldOn=[], ProdGeomIds=[12])
     out = [('diag-gram', tetb, ['BoundaryFieldTangential'], {'BoundaryFieldTangential'}),
            ('same-block', prod, ['ProductGradient'], {'ProductGradient'})]
     if not quick:
-        small = dict(consts, MeshNames=['rect', 'tri'], RefineOn=['tri'], RefineOnB=[], GeomIds=[6, 8], FieldIds=[7], IntegrateOn=['rect', 'tri'], BFieldOn=['tri'], ProdGeomIds=[])
+        small = dict(consts, MeshNames=['rect', 'tri'], RefineOn=['tri'], Refine2On=[], RefineOnB=[], GeomIds=[6, 8], FieldIds=[7], IntegrateOn=['rect', 'tri'], BFieldOn=['tri'], ProdGeomIds=[])
         out += [('inv-transpose', small, INVARIANTS, {'GradIsDerivative', 'SurfGradProjects', 'NormalRoutes', 'PerSpace'}),
                 ('normal-inward', small, INVARIANTS, {'NormalOutward', 'NormalRoutes'}),
                 ('no-measure', small, INVARIANTS, {'DivTheoremElem', 'DivTheoremMesh'}),
@@ -715,7 +718,8 @@ def run(rep):
     # ---- T: export the edge transforms and boundary chains of the live code
     wd = tlc.workdir('c08-table')
     try:
-        table = export_edge_table(set(consts['MeshNames']), consts['MaxLevel'], set(consts['RefineOn']))
+        levels = {name: (consts['MaxLevel'] + (1 if name in consts['Refine2On'] else 0) if name in set(consts['RefineOn']) | set(consts['RefineOnB']) else 0) for name in consts['MeshNames']}
+        table = export_edge_table(set(consts['MeshNames']), levels)
     except RuntimeError:
         raise
     except Exception as e:
@@ -733,12 +737,12 @@ def run(rep):
 
     def design(ig):
         return tlc.run('MCGeometry', cfg_text=make_cfg(dict(consts, MeshNames=groups[ig])), tag='c08-design-{}'.format(ig), workers=4, deadlock=False,
-                       env=dict(VF_TABLE=path), timeout=900 if quick else 3000, heap='3g' if quick else '6g')
+                       env=dict(VF_TABLE=path, JAVA_TOOL_OPTIONS=JAVA_OPTS), timeout=900 if quick else 3000, heap='3g' if quick else '6g')
 
     def mutant(im):
         mut, c, invs, expect = mutants[im]
         return tlc.run('MCGeometry', cfg_text=make_cfg(c, mutant=mut, invariants=invs, emit=False, table=False), tag='c08-mutant-' + mut, workers=2, deadlock=False,
-                       env=dict(VF_TABLE=path), timeout=900, heap='2g')
+                       env=dict(VF_TABLE=path, JAVA_TOOL_OPTIONS=JAVA_OPTS), timeout=900, heap='2g')
     with ThreadPoolExecutor(len(groups) + len(mutants)) as pool:
         dfut = [pool.submit(design, ig) for ig in range(len(groups))]
         mfut = [pool.submit(mutant, im) for im in range(len(mutants))]
